@@ -294,6 +294,11 @@ impl Case {
         Some(c)
     }
 
+    /// helpers that share a name are overloads told apart by their number of int parameters
+    fn overload_arity(&self, h: usize) -> usize {
+        self.helpers[..h].iter().filter(|x| x.name == self.helpers[h].name).count()
+    }
+
     fn body(&self, f: &XFn) -> String {
         let mut s = String::new();
         for r in &f.uses {
@@ -307,7 +312,8 @@ impl Case {
             }
         }
         for h in &f.calls {
-            s.push_str(&format!("    {}();\n", self.helpers[*h].name));
+            let zeros: Vec<&str> = (0..self.overload_arity(*h)).map(|_| "0").collect();
+            s.push_str(&format!("    {}({});\n", self.helpers[*h].name, zeros.join(", ")));
         }
         for k in &f.statics {
             s.push_str(&format!("    s_value{} = s_value{} + 1;\n", k, k));
@@ -349,8 +355,9 @@ impl Case {
             }
             s.push_str(";\n");
         }
-        for h in &self.helpers {
-            s.push_str(&format!("void {}() {{\n{}}}\n", h.name, self.body(h)));
+        for (i, h) in self.helpers.iter().enumerate() {
+            let params: Vec<String> = (0..self.overload_arity(i)).map(|k| format!("int p{}", k)).collect();
+            s.push_str(&format!("void {}({}) {{\n{}}}\n", h.name, params.join(", "), self.body(h)));
         }
         // a mesh entry takes a payload when some pipeline pairs it with a task shader
         let with_payload: BTreeSet<usize> = self
@@ -1132,7 +1139,15 @@ fn judge(case: &Case, tgt: Tgt, pipe: Option<&XPipe>, out: &rssl::CompiledPipeli
             let t = f.threads.map(|(x, y, z)| (x as u32, y as u32, z as u32));
             f_parts.push(format!("{}:{}", f.name, threads_str(t)));
             if t != st.thread_group_size {
-                fails.push(Fail { class: "thread-group-size", detail: format!("`{}` reported {:?} but emitted numthreads {:?}", f.name, st.thread_group_size, f.threads) });
+                // the function of that name is another function when the entry point itself was renamed
+                let prefix = format!("{}_", st.entry_point);
+                let renamed = emitted.funcs.iter().any(|x| x.name.starts_with(&prefix) && x.threads.map(|(a, b, c)| (a as u32, b as u32, c as u32)) == st.thread_group_size);
+                fails.push(Fail {
+                    class: if renamed { "entry-renamed" } else { "thread-group-size" },
+                    detail: format!("stage {} reports entry point `{}` {:?} but the emitted function of that name has numthreads {:?} (functions: {})",
+                        kind, f.name, st.thread_group_size, f.threads,
+                        emitted.funcs.iter().map(|f| f.name.as_str()).collect::<Vec<_>>().join(" ")),
+                });
             }
         }
     }
@@ -1253,6 +1268,16 @@ fn mutate(case: &mut Case, rng: &mut Rng, hist: &mut Hist) {
             hist.add("variant=reserved-entry-name");
         }
     }
+    // overloaded helpers `a`, `a` are emitted as `a_0`, `a_1`; an entry point called `a_0` then has to move
+    if case.helpers.len() >= 2 && !case.entries.is_empty() && rng.chance(1, 24) {
+        let k = rng.below(case.entries.len() as u64) as usize;
+        if case.entries[k].stage.as_deref() == Some("Compute") {
+            case.helpers[0].name = "a".to_string();
+            case.helpers[1].name = "a".to_string();
+            case.entries[k].name = "a_0".to_string();
+            hist.add("variant=overload-clash-entry-name");
+        }
+    }
     // a resource whose name is reserved on Metal only
     if !case.res.is_empty() && rng.chance(1, 24) {
         let k = rng.below(case.res.len() as u64) as usize;
@@ -1325,7 +1350,10 @@ pub fn run(args: &Args, out: &mut Out) {
     for _ in 0..n {
         let seed = rng.next() >> 16;
         let mut prng = Rng::new(seed);
-        let prog = progen::gen_program(&mut prng, &progen::GenOpts { max_resources: 8, ..Default::default() });
+        // mesh entry points make every non-mesh pipeline of the file fail on Metal (InvalidPipelineForMeshIntrinsic):
+        // keep them to a third of the programs
+        let allow_mesh = prng.chance(1, 3);
+        let prog = progen::gen_program(&mut prng, &progen::GenOpts { max_resources: 8, allow_mesh, ..Default::default() });
         let mut case = from_program(&prog);
         mutate(&mut case, &mut prng, &mut hist);
         for tgt in ALL_TARGETS {
@@ -1337,5 +1365,56 @@ pub fn run(args: &Args, out: &mut Out) {
             run_case(&case, tgt, &Mode::NoPipeline, out, &mut hist);
         }
     }
-    out.stat(&format!("{{\"programs\":{},\"hist\":{}}}", n, hist.json()));
+    // name sweep: every name the target languages reserve, as an entry point and as a resource name
+    // (most are rejected by the front end: those cases are skipped; the accepted ones must keep metadata and source in step)
+    let repo = std::env::var("VERIF_REPO").unwrap_or_else(|_| "/repo".into());
+    let mut swept = 0;
+    for (file, tgts) in [("hlsl/src/names.rs", vec![Tgt::Dx, Tgt::VkBa]), ("msl/src/names.rs", vec![Tgt::Msl])] {
+        let names = reserved_names(&format!("{}/{}", repo, file));
+        let step = if args.thorough() { 1 } else { 4 };
+        let start = (args.seed % step as u64) as usize;
+        for name in names.iter().skip(start).step_by(step) {
+            if !name.chars().all(|c| c.is_ascii_alphanumeric() || c == '_') {
+                continue;
+            }
+            for tgt in &tgts {
+                for role in 0..2 {
+                    let mut case = Case {
+                        nstatics: 0,
+                        res: vec![XRes { name: "g_t".into(), kind: "Texture2D".into(), group: None, arr: ArrLen::No, ss: false, bl: false, stat: false }],
+                        helpers: vec![],
+                        entries: vec![XFn { name: "cs_0".into(), stage: Some("Compute".into()), uses: vec![0], calls: vec![], statics: vec![], threads: Some((8, 4, 1)) }],
+                        pipes: vec![XPipe { name: "P0".into(), dflt: None, stages: vec![0] }],
+                    };
+                    if role == 0 {
+                        case.entries[0].name = name.clone();
+                    } else {
+                        case.res[0].name = name.clone();
+                    }
+                    hist.add("source=name-sweep");
+                    swept += 1;
+                    run_case(&case, *tgt, &Mode::Named("P0".into()), out, &mut hist);
+                }
+            }
+        }
+    }
+    out.stat(&format!("{{\"programs\":{},\"name_sweep_cases\":{},\"hist\":{}}}", n, swept, hist.json()));
+}
+
+/// the string literals of `RESERVED_NAMES` in a names.rs
+fn reserved_names(path: &str) -> Vec<String> {
+    let text = std::fs::read_to_string(path).unwrap_or_default();
+    let Some(start) = text.find("RESERVED_NAMES") else { return Vec::new() };
+    let Some(open) = text[start..].find("&[\n").or_else(|| text[start..].find("= &[")) else { return Vec::new() };
+    let body = &text[start + open..];
+    let end = body.find("];").unwrap_or(body.len());
+    let mut out = Vec::new();
+    let mut rest = &body[..end];
+    while let Some(q) = rest.find('"') {
+        let after = &rest[q + 1..];
+        let Some(q2) = after.find('"') else { break };
+        out.push(after[..q2].to_string());
+        rest = &after[q2 + 1..];
+    }
+    out
 }
